@@ -876,12 +876,13 @@ impl<'ascent, 'grammar, W: Write>
             }
             rust!(self.out, "let {p}end = {p}start.clone();", p = self.prefix);
         } else {
-            // this only occurs in the start state
+            // this only occurs in the start state: there is nothing on the
+            // stack, so use the start of the lookahead (if any)
             rust!(
                 self.out,
-                "let {}start: {} = Default::default();",
-                self.prefix,
+                "let {p}start: {} = {p}lookahead.as_ref().map(|o| o.0.clone()).unwrap_or_default();",
                 loc_type,
+                p = self.prefix,
             );
             rust!(self.out, "let {p}end = {p}start.clone();", p = self.prefix);
         }
